@@ -90,18 +90,18 @@ func VerifC03Script() {
 			script.srvData(code, []rCol{col}, v)
 			want = append(want, ev)
 		case pkProgress:
-			p := proto.Progress{Rows: uint64(verifU8("p.rows")&0x7f), Bytes: uint64(verifU8("p.bytes")&0x7f), TotalRows: uint64(verifU8("p.total")&0x7f)}
+			p := proto.Progress{Rows: uint64(verifU8("p.rows") & 0x7f), Bytes: uint64(verifU8("p.bytes") & 0x7f), TotalRows: uint64(verifU8("p.total") & 0x7f)}
 			if v >= rClientInfo {
 				p.WroteRows, p.WroteBytes = uint64(verifU8("p.wr")&0x7f), uint64(verifU8("p.wb")&0x7f)
 			}
 			if v >= rElapsedNs {
-				p.ElapsedNs = uint64(verifU8("p.ns")&0x7f)
+				p.ElapsedNs = uint64(verifU8("p.ns") & 0x7f)
 			}
 			script.srvProgress(p, v)
 			want = append(want, vEvent{kind: 2, prog: p})
 		case pkProfile:
-			p := proto.Profile{Rows: uint64(verifU8("f.rows")&0x7f), Blocks: uint64(verifU8("f.blocks")&0x7f), Bytes: uint64(verifU8("f.bytes")&0x7f),
-				AppliedLimit: verifBool("f.al"), RowsBeforeLimit: uint64(verifU8("f.rbl")&0x7f), CalculatedRowsBeforeLimit: verifBool("f.calc")}
+			p := proto.Profile{Rows: uint64(verifU8("f.rows") & 0x7f), Blocks: uint64(verifU8("f.blocks") & 0x7f), Bytes: uint64(verifU8("f.bytes") & 0x7f),
+				AppliedLimit: verifBool("f.al"), RowsBeforeLimit: uint64(verifU8("f.rbl") & 0x7f), CalculatedRowsBeforeLimit: verifBool("f.calc")}
 			script.srvProfile(p)
 			want = append(want, vEvent{kind: 3, prof: p})
 		case pkTableColumns:
